@@ -505,7 +505,9 @@ def run(ctx):
         src.append("].")
         src.append("Eval vm_compute in (ofailing (fun c => match c with (G, T, j, st, rest) => check_resume_case G T j st rest end) cases).")
         shards.append(("s%04d" % k, "\n".join(src)))
-    corr = []
+    # translator tie: the generated Optimizer / GuessStructure / MarkovCracker code = the model (names the broken lemma)
+    import omen_gen_gen_tie
+    corr = list(omen_gen_gen_tie.obligations())
     for name, idx, log in common.run_case_shards("C15", shards):
         k = int(name[1:])
         if idx is None:
